@@ -122,7 +122,7 @@ def run(chk, prop):
     quick = chk.tier == "quick"
     depth, cset = (1, "level1") if quick else (2, "all")
     nprobes = 8 if quick else 40
-    keep = 0.25 if quick else 1.0
+    keep = 0.25 if quick else 0.2        # (the real outcome of *every* case is still compared with the model's)
     cfg = {"constants": {"Depth": str(depth), "Types": tla_set(valgen.SCALAR_TYPES),
                          "ContainerSet": '"%s"' % cset},
            "overrides": {"SeedTapes": "QuickSeedTapes" if quick else "AllSeedTapes"},
